@@ -26,6 +26,9 @@ type Case struct {
 	Regime   string       `json:"regime"`
 	// NotFound: "" (normal sweep) | "below-snr" | "unknown-rep" | "unknown-asset"
 	NotFound string `json:"notfound,omitempty"`
+	// TimeOffsetMS != 0: the URL carries timeoffset_<s>: the server's clock is the request instant plus the offset, so the
+	// request is made that much earlier (later) on the wall clock and must behave as at the listed instant
+	TimeOffsetMS int64 `json:"timeoffset_ms,omitempty"`
 }
 
 const maxNowMS = 4_102_444_800_000 // 2100-01-01
@@ -50,6 +53,9 @@ func genCase(t *rapid.T) (Case, *env.Env) {
 		if c.NotFound == "below-snr" && cfg.Snr == 0 {
 			c.Cfg.Snr, c.Cfg.HasSnr = 5, true
 		}
+	}
+	if rapid.IntRange(0, 5).Draw(t, "timeoffset?") == 0 {
+		c.TimeOffsetMS = rapid.SampledFrom([]int64{500, 1500, -1500, 250, 2000, -750, 1, -999}).Draw(t, "timeoffset")
 	}
 	ts := tl.TS()
 	a := tl.AvailU(n)
@@ -137,7 +143,16 @@ func checkCase(c Case, e *env.Env) (*hx.Violation, outcome) {
 	prevRank := -1
 	var prevNow int64
 	for _, now := range c.Instants {
-		url := ls.URL(c.Cfg.Parts(), asset, name, now)
+		parts := c.Cfg.Parts()
+		wall := now
+		if c.TimeOffsetMS != 0 {
+			if now-c.TimeOffsetMS < 0 {
+				continue
+			}
+			wall = now - c.TimeOffsetMS
+			parts = append(parts, "timeoffset_"+strconv.FormatFloat(float64(c.TimeOffsetMS)/1000, 'f', -1, 64))
+		}
+		url := ls.URL(parts, asset, name, wall)
 		r := e.Srv.Get(url)
 		if c.NotFound != "" {
 			if now < c.Cfg.StartS*1000 {
@@ -226,6 +241,9 @@ func TestC04(t *testing.T) {
 		}
 		if c.NotFound != "" {
 			cls = append(cls, "notfound:"+c.NotFound)
+		}
+		if c.TimeOffsetMS != 0 {
+			cls = append(cls, "timeoffset")
 		}
 		if len(out.phases) >= 2 {
 			cls = append(cls, "two-phases")
